@@ -281,5 +281,12 @@ func genC07(repo string) (string, error) {
 	if err := o.srcDef(bcf, "BasicCluster", "PutRegion", "src_bc_PutRegion"); err != nil {
 		return "", err
 	}
+	clf, err := goast.Load(repo, "server/cluster/cluster.go")
+	if err != nil {
+		return "", err
+	}
+	if err := o.srcDef(clf, "RaftCluster", "DropCacheRegion", "src_rc_DropCacheRegion"); err != nil {
+		return "", err
+	}
 	return o.sb.String(), nil
 }
